@@ -55,6 +55,7 @@ type Binder struct {
 // TypeExpr is a syntactic type: "int", "rune", "Range", "*T", "[]T", "pkg.T".
 type TypeExpr struct {
 	Kind string // "name", "ptr", "slice", "map"
+	Args []TypeExpr // type arguments of a generic named type
 	Name string
 	Elem *TypeExpr
 	Key  *TypeExpr
@@ -68,6 +69,13 @@ func (t TypeExpr) String() string {
 		return "[]" + t.Elem.String()
 	case "map":
 		return "map[" + t.Key.String() + "]" + t.Elem.String()
+	}
+	if len(t.Args) > 0 {
+		var a []string
+		for _, x := range t.Args {
+			a = append(a, x.String())
+		}
+		return t.Name + "[" + strings.Join(a, ",") + "]"
 	}
 	return t.Name
 }
@@ -279,7 +287,18 @@ func (p *parser) typeExpr() TypeExpr {
 		p.next()
 		name += "." + p.next().text
 	}
-	return TypeExpr{Kind: "name", Name: name}
+	te := TypeExpr{Kind: "name", Name: name}
+	if p.isOp("[") && !(p.toks[p.p+1].kind == "op" && p.toks[p.p+1].text == "]") {
+		p.next()
+		for {
+			te.Args = append(te.Args, p.typeExpr())
+			if !p.accept(",") {
+				break
+			}
+		}
+		p.expect("]")
+	}
+	return te
 }
 
 func (p *parser) quant() Expr {
